@@ -520,7 +520,7 @@ func main() {
 		"one position is hostile per request; the other strings of the request are harmless",
 	}
 	scan := scanRequestSurface()
-	r.Extra["request_surface_scan"] = map[string]any{"service_parameters_checked": scan.ParamsChecked, "planner_context_fields_read": scan.Fields,
+	r.Extra["request_surface_scan"] = map[string]any{"service_parameters_checked": scan.ParamsChecked, "planner_context_fields_read": scan.Fields, "regex_recognisers_in_planners": scan.Recognisers,
 		"unclassified": scan.Unclassified, "unknown_service_methods_enumerated_generically": scan.NewMethods}
 	for _, u := range scan.Unclassified {
 		fmt.Printf("[C10] unclassified request item: %s\n", u)
